@@ -377,6 +377,9 @@ def _shard_short(shard: int, nshards: int, maxlen: int) -> Tally:
 
 
 def run(ctx: Ctx) -> None:
+    # the same address-space limit in the parent (replays) and in the workers: a decoded
+    # garbage length such as bytes(3_000_000_000) must fail the same way in both
+    limit_memory(2.0)
     U()
     _U["bases"] = base_cases()
     t1 = merge_tallies(pmap_shards(_shard_faults, 64, None))
@@ -412,6 +415,7 @@ def run(ctx: Ctx) -> None:
 
 
 def replay(case: dict) -> List[Violation]:
+    limit_memory(2.0)
     U()
     t = Tally()
     data = bytes.fromhex(case["hex"])
